@@ -235,39 +235,44 @@ Proof. apply existsb_app. Qed.
 Lemma has_exc_big b : has_exc (big_log b) = false.
 Proof. destruct b; reflexivity. Qed.
 
-Lemma pipe_loop_exc prod ts ins : forall pos,
-  has_exc (fst (pipe_loop prod ts pos ins)) = snd (pipe_loop prod ts pos ins).
+Lemma pipe_loop_exc prod ts c ins : forall pos,
+  has_exc (fst (pipe_loop prod ts c pos ins)) = snd (pipe_loop prod ts c pos ins).
 Proof.
-  induction ins as [|it rest IH]; intro pos; cbn; [reflexivity|].
-  assert (forall a, has_exc (fst (match a with
-      | TEmit => let (f, e) := pipe_loop prod ts (S pos) rest in (FData (val pos) :: f, e)
-      | TBig => let (f, e) := pipe_loop prod ts (S pos) rest in (FLog :: FData (val pos) :: f, e)
+  induction ins as [|it rest IH]; intro pos; cbn [pipe_loop]; [reflexivity|].
+  assert (has_exc (fst (match nth pos ts (default_act prod) with
+      | TEmit => if cancel_here c pos then ([FData (val pos)], false) else
+                 let (f, e) := pipe_loop prod ts c (S pos) rest in (FData (val pos) :: f, e)
+      | TBig => if cancel_here c pos then ([FLog; FData (val pos)], false) else
+                let (f, e) := pipe_loop prod ts c (S pos) rest in (FLog :: FData (val pos) :: f, e)
       | TFinish => if prod then ([], false) else ([FExc], true)
       | TErr | TPanic | TNoEmit | TEmit2 => ([FExc], true)
       | TBadSchema => ([], false) end))
-    = snd (match a with
-      | TEmit => let (f, e) := pipe_loop prod ts (S pos) rest in (FData (val pos) :: f, e)
-      | TBig => let (f, e) := pipe_loop prod ts (S pos) rest in (FLog :: FData (val pos) :: f, e)
+    = snd (match nth pos ts (default_act prod) with
+      | TEmit => if cancel_here c pos then ([FData (val pos)], false) else
+                 let (f, e) := pipe_loop prod ts c (S pos) rest in (FData (val pos) :: f, e)
+      | TBig => if cancel_here c pos then ([FLog; FData (val pos)], false) else
+                let (f, e) := pipe_loop prod ts c (S pos) rest in (FLog :: FData (val pos) :: f, e)
       | TFinish => if prod then ([], false) else ([FExc], true)
       | TErr | TPanic | TNoEmit | TEmit2 => ([FExc], true)
       | TBadSchema => ([], false) end)) as A.
-  { intro a. specialize (IH (S pos)). destruct a; try reflexivity.
-    - destruct (pipe_loop prod ts (S pos) rest). exact IH.
-    - destruct (pipe_loop prod ts (S pos) rest). exact IH.
+  { specialize (IH (S pos)). destruct (nth pos ts (default_act prod)); try reflexivity.
+    - destruct (cancel_here c pos); [reflexivity|]. destruct (pipe_loop prod ts c (S pos) rest). exact IH.
+    - destruct (cancel_here c pos); [reflexivity|]. destruct (pipe_loop prod ts c (S pos) rest). exact IH.
     - destruct prod; reflexivity. }
-  destruct it; try apply A. reflexivity.
+  destruct it; try exact A. reflexivity.
 Qed.
 
-Lemma http_prod_exc rest : forall pos count big, has_badschema rest = false ->
-  let '(f, e, c, p) := http_prod rest pos count big in
-  has_exc f = e /\ (c = true -> e = false).
+Lemma http_prod_exc c rest : forall pos count big, has_badschema rest = false ->
+  let '(f, e, ct, p) := http_prod c rest pos count big in
+  has_exc f = e /\ (ct = true -> e = false).
 Proof.
   induction rest as [|a r IH]; intros pos count big NB; cbn; [split; [reflexivity|discriminate]|].
   cbn in NB. destruct a; cbn in NB; try discriminate;
     try (split; [reflexivity|intro X; (reflexivity || discriminate X)]).
   - match goal with |- context [if ?b then _ else _] => destruct b end;
       [split; [reflexivity|intro X; reflexivity]|].
-    specialize (IH (S pos) (S count) big NB). destruct (http_prod r (S pos) (S count) big) as [[[f e] c] p]. exact IH.
+    destruct (cancel_here c pos); [split; [reflexivity|intro X; reflexivity]|].
+    specialize (IH (S pos) (S count) big NB). destruct (http_prod c r (S pos) (S count) big) as [[[f e] ct] p]. exact IH.
 Qed.
 
 Lemma skipn_nobad {A} (p : A -> bool) n l : existsb p l = false -> existsb p (skipn n l) = false.
@@ -279,13 +284,15 @@ Qed.
 Lemma resp_err_http st x ss : resp_err (http_resp st x ss) = (400 <=? st)%N || x || existsb (existsb is_exc) ss.
 Proof. unfold resp_err, http_resp. cbn. now rewrite orb_false_r. Qed.
 
-Lemma http_prod_turn_ok cl pos pre_frames big :
+Lemma http_prod_turn_ok cl pos pre_frames big cd :
   c_nogob cl = false -> has_badschema (c_turns cl) = false -> has_exc pre_frames = false ->
-  fate_ok (http_prod_turn cl pos pre_frames big) /\ f_disp (http_prod_turn cl pos pre_frames big) = true.
+  fate_ok (http_prod_turn cl pos pre_frames big cd) /\ f_disp (http_prod_turn cl pos pre_frames big cd) = true.
 Proof.
-  intros G NB PF. unfold http_prod_turn.
-  pose proof (http_prod_exc (skipn pos (c_turns cl)) pos 0 big (skipn_nobad _ _ _ NB)) as H.
-  destruct (http_prod (skipn pos (c_turns cl)) pos 0 big) as [[[f e] c] p]. destruct H as [H1 H2].
+  intros G NB PF. unfold http_prod_turn. destruct cd.
+  { split; [|reflexivity]. intros _. cbn [f_err f_resp handled]. rewrite resp_err_http. cbn.
+    fold (has_exc pre_frames). now rewrite PF. }
+  pose proof (http_prod_exc (c_cancel cl) (skipn pos (c_turns cl)) pos 0 big (skipn_nobad _ _ _ NB)) as H.
+  destruct (http_prod (c_cancel cl) (skipn pos (c_turns cl)) pos 0 big) as [[[f e] c] p]. destruct H as [H1 H2].
   rewrite G. destruct c.
   - split; [|reflexivity]. intros _. cbn [f_err f_resp handled]. rewrite resp_err_http. cbn.
     fold (has_exc (pre_frames ++ f ++ [FTok])). rewrite !has_exc_app, PF, H1, (H2 eq_refl). reflexivity.
@@ -321,19 +328,33 @@ Proof.
       destruct (pv_ok (c_pv cl)); cbn; try (fsolve);
       (destruct (c_badparams cl); [fsolve|]).
     + destruct (c_init cl); fsolve.
-    + assert (forall o b, (let (f, e) := pipe_loop true (c_turns cl) 0 (c_inputs cl) in
+    + assert (forall o b, (let (f, e) := if cancel_handler (c_cancel cl) then ([], false)
+                                          else pipe_loop true (c_turns cl) (c_cancel cl) 0 (c_inputs cl) in
                             handled e (pipe_resp [big_log b ++ f]) false 0) = o ->
                           fate_ok o /\ f_disp o = true) as A.
-      { intros o b <-. pose proof (pipe_loop_exc true (c_turns cl) (c_inputs cl) 0) as E.
-        destruct (pipe_loop true (c_turns cl) 0 (c_inputs cl)) as [f e]. cbn [fst snd] in E. split; [|reflexivity].
+      { intros o b <-.
+        assert (has_exc (fst (if cancel_handler (c_cancel cl) then ([], false)
+                              else pipe_loop true (c_turns cl) (c_cancel cl) 0 (c_inputs cl)))
+                = snd (if cancel_handler (c_cancel cl) then ([], false)
+                       else pipe_loop true (c_turns cl) (c_cancel cl) 0 (c_inputs cl))) as E
+          by (destruct (cancel_handler (c_cancel cl)); [reflexivity|apply pipe_loop_exc]).
+        destruct (if cancel_handler (c_cancel cl) then ([], false)
+                  else pipe_loop true (c_turns cl) (c_cancel cl) 0 (c_inputs cl)) as [f e]. cbn [fst snd] in E. split; [|reflexivity].
         intros _. cbn. unfold resp_err. cbn. fold (has_exc (big_log b ++ f)).
         rewrite has_exc_app, has_exc_big, E. now rewrite orb_false_r. }
       destruct (c_init cl); try (fsolve); first [exact (A _ false eq_refl) | exact (A _ true eq_refl)].
-    + assert (forall o b, (let (f, e) := pipe_loop false (c_turns cl) 0 (c_inputs cl) in
+    + assert (forall o b, (let (f, e) := if cancel_handler (c_cancel cl) then ([], false)
+                                          else pipe_loop false (c_turns cl) (c_cancel cl) 0 (c_inputs cl) in
                             handled e (pipe_resp [big_log b ++ f]) false 0) = o ->
                           fate_ok o /\ f_disp o = true) as A.
-      { intros o b <-. pose proof (pipe_loop_exc false (c_turns cl) (c_inputs cl) 0) as E.
-        destruct (pipe_loop false (c_turns cl) 0 (c_inputs cl)) as [f e]. cbn [fst snd] in E. split; [|reflexivity].
+      { intros o b <-.
+        assert (has_exc (fst (if cancel_handler (c_cancel cl) then ([], false)
+                              else pipe_loop false (c_turns cl) (c_cancel cl) 0 (c_inputs cl)))
+                = snd (if cancel_handler (c_cancel cl) then ([], false)
+                       else pipe_loop false (c_turns cl) (c_cancel cl) 0 (c_inputs cl))) as E
+          by (destruct (cancel_handler (c_cancel cl)); [reflexivity|apply pipe_loop_exc]).
+        destruct (if cancel_handler (c_cancel cl) then ([], false)
+                  else pipe_loop false (c_turns cl) (c_cancel cl) 0 (c_inputs cl)) as [f e]. cbn [fst snd] in E. split; [|reflexivity].
         intros _. cbn. unfold resp_err. cbn. fold (has_exc (big_log b ++ f)).
         rewrite has_exc_app, has_exc_big, E. now rewrite orb_false_r. }
       destruct (c_init cl); try (fsolve); first [exact (A _ false eq_refl) | exact (A _ true eq_refl)].
@@ -553,7 +574,7 @@ Qed.
 (* ---- recorded findings: concrete witnesses ------------------------------------------- *)
 Definition mk_call (http : bool) (k : mkind) (pv : pvflag) (nogob : bool) (ts : list tact) (ins : list citem) : call :=
   {| c_http := http; c_kind := k; c_pre := PreNone; c_pv := pv; c_badparams := false; c_sticky := false;
-     c_init := OOk; c_nogob := nogob; c_turns := ts; c_inputs := ins |}.
+     c_init := OOk; c_nogob := nogob; c_turns := ts; c_inputs := ins; c_cancel := CNone |}.
 Definition one_call (cl : call) : input := {| i_hooks := []; i_calls := [cl]; i_sched := [Begin 0; Finish 0] |}.
 
 Definition w_gate := mk_call true KUnary PvBad false [] [].
@@ -678,3 +699,61 @@ Lemma example_ok :
   /\ map q_seen (concat (o_run (model example_input))) = [None; None; Some 0; Some 0; Some 3; None; Some 0]
   /\ length (concat (o_run (model example_input))) = 7.
 Proof. vm_compute. repeat split; reflexivity. Qed.
+
+(* ---- context cancellation: a clean end, never an error of its own ------------------------ *)
+Lemma cancel_no_new_error_pipe prod ts c ins : forall pos,
+  snd (pipe_loop prod ts c pos ins) = true -> snd (pipe_loop prod ts CNone pos ins) = true.
+Proof.
+  induction ins as [|it rest IH]; intro pos; cbn [pipe_loop]; [intro H; exact H|].
+  assert (snd (match nth pos ts (default_act prod) with
+      | TEmit => if cancel_here c pos then ([FData (val pos)], false) else
+                 let (f, e) := pipe_loop prod ts c (S pos) rest in (FData (val pos) :: f, e)
+      | TBig => if cancel_here c pos then ([FLog; FData (val pos)], false) else
+                let (f, e) := pipe_loop prod ts c (S pos) rest in (FLog :: FData (val pos) :: f, e)
+      | TFinish => if prod then ([], false) else ([FExc], true)
+      | TErr | TPanic | TNoEmit | TEmit2 => ([FExc], true)
+      | TBadSchema => ([], false) end) = true ->
+    snd (match nth pos ts (default_act prod) with
+      | TEmit => if cancel_here CNone pos then ([FData (val pos)], false) else
+                 let (f, e) := pipe_loop prod ts CNone (S pos) rest in (FData (val pos) :: f, e)
+      | TBig => if cancel_here CNone pos then ([FLog; FData (val pos)], false) else
+                let (f, e) := pipe_loop prod ts CNone (S pos) rest in (FLog :: FData (val pos) :: f, e)
+      | TFinish => if prod then ([], false) else ([FExc], true)
+      | TErr | TPanic | TNoEmit | TEmit2 => ([FExc], true)
+      | TBadSchema => ([], false) end) = true) as A.
+  { specialize (IH (S pos)). cbn [cancel_here]. destruct (nth pos ts (default_act prod)); try (intro H; exact H).
+    - destruct (cancel_here c pos); [intro H; discriminate H|].
+      destruct (pipe_loop prod ts c (S pos) rest), (pipe_loop prod ts CNone (S pos) rest). exact IH.
+    - destruct (cancel_here c pos); [intro H; discriminate H|].
+      destruct (pipe_loop prod ts c (S pos) rest), (pipe_loop prod ts CNone (S pos) rest). exact IH. }
+  destruct it; try exact A. intro H; exact H.
+Qed.
+
+Definition prod_err (x : list fr * bool * bool * nat) : bool := snd (fst (fst x)).
+Lemma cancel_no_new_error_http c rest : forall pos count big,
+  prod_err (http_prod c rest pos count big) = true -> prod_err (http_prod CNone rest pos count big) = true.
+Proof.
+  induction rest as [|a r IH]; intros pos count big; cbn [http_prod]; [intro H; exact H|].
+  cbn [cancel_here]. destruct a; try (intro H; exact H).
+  destruct (Nat.leb 2 (S count) || big); [intro H; exact H|].
+  destruct (cancel_here c pos); [intro H; discriminate H|].
+  specialize (IH (S pos) (S count) big). unfold prod_err in *.
+  destruct (http_prod c r (S pos) (S count) big) as [[[f e] ct] p],
+           (http_prod CNone r (S pos) (S count) big) as [[[f0 e0] ct0] p0]. exact IH.
+Qed.
+
+(* cancelled in the handler, before the first iteration: nothing is produced, nothing is reported *)
+Lemma cancel_in_handler_clean k cl : c_cancel cl = CHandler -> is_stream (c_kind cl) = true ->
+  first_dispatched cl = true -> c_badparams cl = false -> c_sticky cl = false ->
+  (c_init cl = OOk \/ c_init cl = OBig) -> c_http cl = false \/ c_kind cl = KProd ->
+  f_err (first_fate k cl) = false /\ resp_err (f_resp (first_fate k cl)) = false /\ f_tok (first_fate k cl) = false.
+Proof.
+  intros C ST D BP SK I T. unfold first_dispatched in D.
+  apply andb_true_iff in D as [D PRE]. apply andb_true_iff in D as [_ PV].
+  unfold first_fate, pipe_first, http_first, http_first_gen, http_prod_turn. rewrite PV, BP, C. cbn [negb cancel_handler].
+  destruct (c_http cl) eqn:H; cbn [negb orb] in PRE.
+  - destruct T as [T|T]; [discriminate|]. rewrite T, SK. destruct (c_pre cl); try discriminate.
+    destruct I as [-> | ->]; repeat split; reflexivity.
+  - destruct (c_kind cl); try discriminate; cbn [is_stream is_prod];
+      destruct I as [-> | ->]; repeat split; reflexivity.
+Qed.
